@@ -499,7 +499,7 @@ var faults = []fault{
 	{"bad-policy-text", func(r *common.Rng, c *ConfigC) bool {
 		if s := pickServer(r, c, anyServer); s != nil && r.Bool() {
 			if r.Bool() {
-				s.Rej = sp(common.Pick(r, []string{"forcereset", "Reset", " "}))
+				s.Rej = sp(common.Pick(r, []string{"forcereset", "Reset", "justclose"}))
 			} else {
 				s.Pad = sp(common.Pick(r, []string{"padall", "None"}))
 			}
